@@ -105,6 +105,10 @@ func TestTypingRules(t *testing.T) {
 		{"no-such-member", "struct S { int a; };\n" + m("S s = S(1); int j = s.b;"), "malformed", "malformed"},
 		{"compound-assign-result-type", m("int i = 1; i += 1.5;"), "malformed", "malformed"},
 		{"vec-times-mat-assign-ok", m("vec2 v = vec2(1.0); v *= mat2(2.0);"), "", ""},
+		{"const-init-traps-when-folded", "const int z = 1 / 0;\n" + m("const int y = 7 % -2;"), "", ""},
+		{"const-init-not-constant", m("int g = 1; const int c = g; int arr[2]; arr[0] = c;"), "", "malformed"},
+		{"array-size-not-constant", m("int g = 2; int arr[g];"), "malformed", "malformed"},
+		{"array-size-const-expr", "const int N = 2 * 3;\n" + m("int arr[N + 1]; arr[6] = 1; ivec2 v[N / 3];"), "", ""},
 		{"unterminated", "void main() { int x = 1;", "malformed", "malformed"},
 		{"version-define", "#define X 1\nvoid main() {}", "unsupported", "unsupported"},
 	}
